@@ -309,6 +309,70 @@ class UDPClient(Path):
         return self.client.aclose()
 
 
+class ServerSideClient(Path):
+    """The client object a request handler gets from AsyncTCPNetworkServer: aclose() called from a task of its own."""
+
+    name = "server-side client aclose (AsyncTCPNetworkServer)"
+    behind_sender = False
+
+    async def setup(self) -> None:
+        from easynetwork.protocol import StreamProtocol
+        from easynetwork.serializers.line import StringLineSerializer
+        from easynetwork.servers.handlers import AsyncStreamRequestHandler
+
+        from .. import srvharness
+
+        path = self
+        got: dict[str, Any] = {}
+        ready = asyncio.Event()
+
+        class Handler(AsyncStreamRequestHandler[str, str]):
+            async def handle(self, client: Any) -> Any:
+                got["client"] = client
+                ready.set()
+                while True:
+                    yield
+
+        self.fx = srvharness.TCPServerFixture(StreamProtocol(StringLineSerializer()), Handler())
+        await self.fx.start()
+        self.mc = self.fx.connect(**({"capacity": 64} if False else {}))
+        tr = self.mc.server_side
+        orig_aclose = tr.aclose
+        fail = self.fail_inner
+
+        async def aclose() -> None:
+            path.log({"ev": "inner_close", "i": 1})
+            await orig_aclose()
+            await asyncio.sleep(0)
+            if fail == 1:
+                raise ConnectionResetError(104, "injected close failure")
+
+        tr.aclose = aclose  # type: ignore[method-assign]
+        await asyncio.wait_for(ready.wait(), 5)
+        self.client = got["client"]
+        self.backend = self.fx.backend
+        if self.behind_sender:
+            # another task of the handler is suspended in send_packet(): the peer's window is full
+            self.mc.from_server.capacity = 16
+            self._sender = asyncio.ensure_future(self.client.send_packet("x" * 4096))
+            for _ in range(5):
+                await asyncio.sleep(0)
+            self.cleanup.append(self._sender.cancel)
+
+        async def stop() -> None:
+            await self.fx.stop()
+
+        self.cleanup.append(stop)
+
+    def close(self) -> Awaitable[None]:
+        return self.client.aclose()
+
+
+class ServerSideClientBehindSender(ServerSideClient):
+    name = "server-side client aclose behind a suspended send_packet"
+    behind_sender = True
+
+
 class SocketAdapter(Path):
     name = "AsyncioTransportStreamSocketAdapter.aclose"
 
@@ -335,7 +399,21 @@ class SocketAdapter(Path):
             self.log({"ev": "inner_close", "i": 1})
 
 
-PATHS: list[type[Path]] = [TLSCloseAnswer, TLSCloseStall, TLSCloseVanish, TLSWrapStalled, Forcefully, Stapled, Endpoint, TCPClient, TCPClientBehindSender, UDPClient, SocketAdapter]
+PATHS: list[type[Path]] = [
+    TLSCloseAnswer,
+    TLSCloseStall,
+    TLSCloseVanish,
+    TLSWrapStalled,
+    Forcefully,
+    Stapled,
+    Endpoint,
+    TCPClient,
+    TCPClientBehindSender,
+    UDPClient,
+    SocketAdapter,
+    ServerSideClient,
+    ServerSideClientBehindSender,
+]
 
 
 async def _run_once(cls: type[Path], cancel_before: int | None, fail_inner: int, early: bool = False) -> tuple[list[dict[str, Any]], int]:
@@ -437,7 +515,7 @@ def run(chk: Check) -> None:
                 evs, nsteps = vloop.run(lambda: _run_once(cls, None, fail), spin_limit=5000)
             except vloop.VirtualDeadlock:
                 evs, nsteps = [{"ev": "start"}, {"ev": "hang"}], 0
-            if cls is not TCPClientBehindSender:
+            if cls not in (TCPClientBehindSender, ServerSideClientBehindSender):
                 # (behind a sender that the peer never unblocks, a graceful close legitimately waits for ever: only its cancellation is of interest)
                 rec.append({"inners": cls.ninner, "events": evs, "meta": f"{cls.name} cancel=none fail_inner={fail} steps={nsteps}"})
                 nruns += 1
@@ -474,7 +552,7 @@ def run(chk: Check) -> None:
             f"close path: obligation not met (event #{pos}: {failing}) -- {t['meta']} events={[(e['ev'], e.get('i', 0), e.get('kind', '')) for e in evs]}",
             {"kind": "close_run", "meta": t["meta"], "events": evs},
         )
-    chk.not_covered.append("server-side client aclose and client task teardown are exercised by the stream-server check (C15/C17)")
+    chk.not_covered.append("the client task's tear-down (exit stack of the low-level server) is exercised by the stream-server checks (C15/C17: the connection must end up closed)")
     chk.assumptions += [
         "inner transports are in-memory recording transports whose aclose() marks them closed even when their own close hook fails or is cancelled",
     ]
